@@ -1604,8 +1604,140 @@ fn c15_failed_commit_record_stays_in_log(dir: PathBuf) -> ScenFut<'static> {
     })
 }
 
+/// Many keys x 3 versions, flushed and reopened, both back-ends: the version index spans many
+/// leaf pages, so seeks land on every position of a leaf, also its first and last entry.
+fn c10_wide_version_index(dir: PathBuf) -> ScenFut<'static> {
+    Box::pin(async move {
+        for index in [true, false] {
+            let d = dir.join(if index { "index" } else { "lsm" });
+            let cfg = Cfg { max_memtable_size: 4 << 20, ..ver_cfg(index) };
+            let t = cfg.open(&d).map_err(|e| e.to_string())?;
+            let n = 420usize;
+            for ts in [10u64, 20, 30] {
+                // several keys per transaction to keep the scenario short
+                for chunk in (0..n).collect::<Vec<_>>().chunks(60) {
+                    let mut tx = t.begin_with_mode(Mode::WriteOnly).map_err(|e| e.to_string())?;
+                    for i in chunk {
+                        tx.set_at(format!("key{:04}", i).as_bytes(), format!("key{:04}@{}", i, ts).as_bytes(), ts).map_err(|e| e.to_string())?;
+                    }
+                    tx.commit().await.map_err(|e| e.to_string())?;
+                }
+            }
+            t.verif_flush().map_err(|e| e.to_string())?;
+            close(t).await;
+            let t = cfg.open(&d).map_err(|e| format!("reopen: {e}"))?;
+            for i in 0..n {
+                let k = format!("key{:04}", i).into_bytes();
+                for (at, exp) in [(5u64, None), (10, Some(10u64)), (25, Some(20)), (99, Some(30))] {
+                    let got = get_at(&t, &k, at).await?;
+                    let want = exp.map(|e| format!("key{:04}@{}", i, e).into_bytes());
+                    if got != want {
+                        close(t).await;
+                        return Err(format!(
+                            "{} keys x versions at timestamps 10/20/30, flushed, reopened, version index {}: get_at(key{:04}, {}) = {:?}, expected {:?}",
+                            n,
+                            if index { "on" } else { "off" },
+                            i,
+                            at,
+                            got.map(|v| String::from_utf8_lossy(&v).to_string()),
+                            want.map(|v| String::from_utf8_lossy(&v).to_string())
+                        ));
+                    }
+                }
+                if i % 7 == 0 {
+                    let mut hi = k.clone();
+                    hi.push(0);
+                    let h = hist_list(&t, &k, &hi, false, false, None)?;
+                    let hb = hist_list(&t, &k, &hi, true, false, None)?;
+                    let want: Vec<(Vec<u8>, u64)> = vec![(k.clone(), 30), (k.clone(), 20), (k.clone(), 10)];
+                    let mut wb = want.clone();
+                    wb.reverse();
+                    if h != want || hb != wb {
+                        close(t).await;
+                        return Err(format!("version index {}: history of key{:04} lists {:?} forward / {:?} backward, expected timestamps 30, 20, 10", if index { "on" } else { "off" }, i, h.iter().map(|x| x.1).collect::<Vec<_>>(), hb.iter().map(|x| x.1).collect::<Vec<_>>()));
+                    }
+                }
+            }
+            // range history starting at every 13th key
+            for i in (0..n).step_by(13) {
+                let lo = format!("key{:04}", i).into_bytes();
+                let h = hist_list(&t, &lo, b"key9999", false, false, None)?;
+                if h.len() != (n - i) * 3 || h.first().map(|x| x.0.clone()) != Some(lo.clone()) {
+                    close(t).await;
+                    return Err(format!("version index {}: history from key{:04} to the end lists {} versions starting at {:?}, expected {} starting at that key", if index { "on" } else { "off" }, i, h.len(), h.first().map(|x| String::from_utf8_lossy(&x.0).to_string()), (n - i) * 3));
+                }
+            }
+            close(t).await;
+        }
+        Ok(())
+    })
+}
+
+fn c07_crash_during_wal_repair(dir: PathBuf) -> ScenFut<'static> {
+    Box::pin(async move {
+        let cfg = base_cfg();
+        let t = cfg.open(&dir).map_err(|e| e.to_string())?;
+        put(&t, &[(b"a", b"1")]).await?;
+        put(&t, &[(b"b", b"2")]).await?;
+        put(&t, &[(b"c", b"3")]).await?;
+        close(t).await;
+        let wal = dir.join("wal");
+        let seg = std::fs::read_dir(&wal).map_err(|e| e.to_string())?.flatten().map(|e| e.path()).find(|p| p.extension().map(|x| x == "wal").unwrap_or(false)).ok_or("no segment")?;
+        let mut bytes = std::fs::read(&seg).map_err(|e| e.to_string())?;
+        let n = bytes.len();
+        bytes[n - 2] ^= 0xff; // damage inside the last record: recovery will repair the segment
+        std::fs::write(&seg, &bytes).map_err(|e| e.to_string())?;
+        // what a repair interrupted by a crash leaves behind: its directory with a partial file
+        let rt = wal.join("repair_temp");
+        std::fs::create_dir_all(&rt).map_err(|e| e.to_string())?;
+        // ... cut inside the payload of its second record (power loss while the repair wrote it)
+        let pristine_ends: Vec<u64> = {
+            let mut good = bytes.clone();
+            good[n - 2] ^= 0xff;
+            let tmp = dir.join("pristine.tmp");
+            std::fs::write(&tmp, &good).map_err(|e| e.to_string())?;
+            let ends = surrealkv::verif::verif_wal_read_segment(&tmp).map(|(r, _)| r.into_iter().map(|x| x.1).collect()).unwrap_or_default();
+            let _ = std::fs::remove_file(&tmp);
+            ends
+        };
+        let cut = pristine_ends.first().map(|e| *e as usize + 7 + 3).unwrap_or(n / 3).min(n - 1);
+        std::fs::write(rt.join("00000000000000000000.wal"), &bytes[..cut]).map_err(|e| e.to_string())?;
+        let t = match cfg.open(&dir) {
+            Ok(t) => t,
+            Err(e) => return Err(format!("three commits; the last record damaged; a repair interrupted by a crash left wal/repair_temp with a partial file; open fails: {e}")),
+        };
+        let a = get1(&t, b"a")?;
+        let b = get1(&t, b"b")?;
+        let r = put(&t, &[(b"d", b"4")]).await;
+        close(t).await;
+        if a.as_deref() != Some(&b"1"[..]) || b.as_deref() != Some(&b"2"[..]) {
+            return Err(format!("after the second repair the commits before the damage are not all there (a present: {}, b present: {})", a.is_some(), b.is_some()));
+        }
+        r.map_err(|e| format!("commit after recovery failed: {e}"))?;
+        let t = cfg.open(&dir).map_err(|e| format!("reopen after recovery + commit failed: {e}"))?;
+        let d = get1(&t, b"d")?;
+        close(t).await;
+        if d.as_deref() != Some(&b"4"[..]) {
+            return Err("the commit made after recovery is gone after another reopen".into());
+        }
+        Ok(())
+    })
+}
+
 pub fn all() -> Vec<Scenario> {
     vec![
+        Scenario {
+            id: "C07-crash-during-wal-repair",
+            property: "C07",
+            title: "damaged commit-log tail and the leftover directory of a repair that was interrupted by a crash",
+            run: c07_crash_during_wal_repair,
+        },
+        Scenario {
+            id: "C10-wide-version-index",
+            property: "C10",
+            title: "hundreds of keys x 3 versions, flushed and reopened, with and without the version index",
+            run: c10_wide_version_index,
+        },
         Scenario {
             id: "C15-oversize-transaction-logged-then-rejected",
             property: "C15",
